@@ -87,27 +87,58 @@ def setParent (s : Forest) (o : Nat) : Option Nat → Forest × Bool
   | none => (s.detach o, true)
   | some c => s.add c [o] true
 
-/-- children of `c` selected by `keep = false` lose their parent and are dropped from `c` -/
-def dropWhere (s : Forest) (c : Nat) (drop : Nat → Bool) : Forest :=
-  ((s.children c).filter drop).foldl (fun s o => s.detach o) s
+/-- `for child in xs: child._parent = p` -/
+def setParents (s : Forest) (xs : List Nat) (p : Option Nat) : Forest :=
+  xs.foldl (fun s x => { s with parent := upd s.parent x p }) s
 
-/-- `coll.children = objs` -/
+/-- `_replace_children(removed, new_children)` of collection `c` (repo fix 9176cc9), statement by statement:
+the children in `removed` lose their parent, `_children` becomes the list of the others, the views are refreshed;
+`add(*new_children, override_parent=True)` is tried; when it raises, the OLD list is put back, the removed
+children get `c` as parent again, the views are refreshed, and the exception goes on (second component `false`). -/
+def replaceChildren (s : Forest) (c : Nat) (removed new : List Nat) : Forest × Bool :=
+  let old := s.children c
+  let s1 := s.setParents removed none
+  let s2 := sync { s1 with children := upd s1.children c (old.filter fun x => !removed.contains x) } c
+  let r := s2.add c new true
+  if r.2 then r
+  else
+    let s3 : Forest := { r.1 with children := upd r.1.children c old }
+    (sync (s3.setParents removed (some c)) c, false)
+
+/-- `coll.children = objs`: `removed = list(self._children)` -/
 def setChildren (s : Forest) (c : Nat) (objs : List Nat) : Forest × Bool :=
-  (s.dropWhere c (fun _ => true)).add c objs true
+  s.replaceChildren c (s.children c) objs
 
 /-- `format_obj_input(x, allow=k)` for k ∈ {sources, sensors}: collections are flattened -/
 def flat (s : Forest) : Nat → Nat → List Nat
   | 0, _ => []
   | k + 1, o => if s.kind o = .coll then (s.children o).flatMap (flat s k) else [o]
 
-/-- `coll.sources = objs` / `.sensors =` / `.collections =` -/
+/-- `format_obj_input(objs, allow=k)` as the typed setters call it — BEFORE anything is modified; ids that are no
+objects (`≥ n`) stand for entries of any other type.  `none` = it raises.  For sources / sensors every entry that is
+neither a source nor a sensor is iterated (a Collection yields its children, anything else raises), then the
+unwanted type is filtered out; for collections nothing is iterated and `filter_objects` silently drops every
+entry that is not a Collection — also entries that are no magpylib objects at all. -/
+def formatTyped (s : Forest) (k : Kind) (objs : List Nat) : Option (List Nat) :=
+  match k with
+  | .coll => some (objs.filter fun o => decide (o < s.n) && decide (s.kind o = .coll))
+  | _ => if objs.all (fun o => o < s.n) then some ((objs.flatMap (s.flat (s.n + 1))).filter fun o => s.kind o = k)
+         else none
+
+/-- the stored typed view of kind `k` -/
+def typedView (s : Forest) (k : Kind) (c : Nat) : List Nat :=
+  match k with
+  | .src => s.srcs c
+  | .sens => s.sens c
+  | .coll => s.colls c
+
+/-- `coll.sources = objs` / `.sensors =` / `.collections =`: the input is formatted first (a refusal changes
+nothing), `removed = [child for child in self._children if child in self._sources]` -/
 def setTyped (s : Forest) (c : Nat) (k : Kind) (objs : List Nat) : Forest × Bool :=
-  let s1 := s.dropWhere c (fun o => s.kind o = k)
-  let formatted :=
-    match k with
-    | .coll => objs.filter fun o => s1.kind o = .coll
-    | _ => (objs.flatMap (s1.flat (s1.n + 1))).filter fun o => s1.kind o = k
-  s1.add c formatted true
+  match s.formatTyped k objs with
+  | none => (s, false)
+  | some formatted =>
+    s.replaceChildren c ((s.children c).filter fun x => (s.typedView k c).contains x) formatted
 
 /-- `a + b` = `Collection(a, b)`: a fresh collection with id `n` (kept only if `add` accepts) -/
 def plus (s : Forest) (a b : Nat) : Forest × Bool :=
